@@ -342,6 +342,59 @@ pub fn property(id: &'static str, _tier: Tier) -> PropertyDef {
     }
 }
 
+/// Debug helper: finds the first insertion after which a shared reload resource is overdrawn (single resource problems).
+pub fn debug_resource(path: &str) {
+    use std::sync::Mutex;
+    use vrp_cli::extensions::solve::config::create_builder_from_config;
+    use vrp_core::construction::features::JobDemandDimension;
+    use vrp_core::models::common::{MultiDimLoad, SingleDimLoad};
+    use vrp_core::models::problem::JobIdDimension;
+    use vrp_core::solver::Solver;
+    let doc: Value = serde_json::from_str(&std::fs::read_to_string(path).unwrap()).unwrap();
+    let case: E2eCase = serde_json::from_value(doc["case"].clone()).unwrap();
+    let rendered = render(&case.spec);
+    let core = read_core(&rendered.problem, &rendered.matrices).unwrap();
+    let cfg = render_config(&case.config);
+    let capacity: i64 = rendered.problem.fleet.resources.iter().flatten().map(|r| { let api::VehicleResource::Reload { capacity, .. } = r; capacity[0] as i64 }).next().unwrap_or(i64::MAX);
+    static PREV: Mutex<String> = Mutex::new(String::new());
+    static DONE: std::sync::atomic::AtomicBool = std::sync::atomic::AtomicBool::new(false);
+    vrp_core::construction::heuristics::verif_hooks::set_insertion_observer(Some(Arc::new(move |ctx| {
+        let mut total = 0i64;
+        let mut text = String::new();
+        for r in ctx.solution.routes.iter() {
+            let mut after_reload = false;
+            text.push('[');
+            for a in r.route().tour.all_activities() {
+                let id = a.retrieve_job().and_then(|j| j.dimens().get_job_id().cloned()).unwrap_or("-".into());
+                if id.contains("_reload_") {
+                    // only reloads of shifts that name a resource are shared (second shift in the analysed case)
+                    after_reload = true;
+                }
+                let d = a.job.as_ref().and_then(|s| s.dimens.get_job_demand::<SingleDimLoad>().map(|d| d.delivery.0.value as i64).or_else(|| s.dimens.get_job_demand::<MultiDimLoad>().map(|d| d.delivery.0.load[0] as i64))).unwrap_or(0);
+                if after_reload {
+                    total += d;
+                }
+                text.push_str(&format!(" {id}({d})"));
+            }
+            text.push_str("] ");
+        }
+        let line = format!("total {total}: {text} | req {} una {} ign {}", ctx.solution.required.len(), ctx.solution.unassigned.len(), ctx.solution.ignored.len());
+        if total > capacity && !DONE.swap(true, std::sync::atomic::Ordering::SeqCst) {
+            crate::outln!("FIRST OVERDRAWN STATE AFTER AN INSERTION (capacity {capacity})\n  before: {}\n  after:  {line}", PREV.lock().unwrap());
+        }
+        *PREV.lock().unwrap() = line;
+    })));
+    for attempt in 0..30 {
+        let config = parse_config(&cfg).unwrap();
+        let _ = create_builder_from_config(core.clone(), Default::default(), &config).and_then(|b| b.build()).map(|c| Solver::new(core.clone(), c)).and_then(|s| s.solve());
+        if DONE.load(std::sync::atomic::Ordering::SeqCst) {
+            crate::outln!("reproduced in attempt {attempt}");
+            return;
+        }
+    }
+    crate::outln!("not reproduced");
+}
+
 /// Debug helper: solves a saved case through the core API and dumps raw route schedules.
 pub fn debug_case(path: &str) {
     use vrp_cli::extensions::solve::config::create_builder_from_config;
